@@ -88,6 +88,11 @@ pub trait Engine: Sync {
     fn shard_over_processes(&self) -> bool {
         false
     }
+    /// How many re-executions the minimiser may spend on one violation of this engine. Engines whose runs take real
+    /// time (probes on real threads that wait out real timeouts when something is broken) get a handful.
+    fn minimise_budget(&self) -> usize {
+        3000
+    }
 }
 
 // ---------------------------------------------------------------------------------------------
@@ -893,7 +898,7 @@ pub fn report(
                         continue;
                     }
                     let min = if reproduces(part.engine, rec, &ctx, v) {
-                        minimise(part.engine, rec, &ctx, v, 3000)
+                        minimise(part.engine, rec, &ctx, v, part.engine.minimise_budget())
                     } else {
                         // not reproducible from its own record: that is a harness problem
                         harness_errors.push(format!(
